@@ -73,3 +73,12 @@ def partners(country: str, body: str | None = None) -> list[str]:
         if k != country and c.bban_length == me.bban_length and (body is None or c.matches(body)):
             out.append(k)
     return out
+
+
+def self_prefixed(country: str):
+    """A conforming BBAN that begins with the country's own code and two digits (the normal shape in
+    several West-African countries: BF42 BF08 ...), or None if the structure does not admit it."""
+    c = reg.countries()[country]
+    b = bban(c, "distinct")
+    cand = country + "08" + b[4:]
+    return cand if len(b) >= 4 and c.matches(cand) else None
